@@ -496,9 +496,17 @@ impl ProcCase {
             src: String::from_utf8(unhex(f[6])?).ok()?,
         })
     }
+    /// the option as written BEFORE the subcommand
+    fn global_args(&self) -> Vec<String> {
+        match self.style {
+            'G' | 'B' => vec!["-f".into(), self.value.clone()],
+            _ => vec![],
+        }
+    }
+    /// the option as written AFTER the subcommand and the file name
     fn flag_args(&self) -> Vec<String> {
         match self.style {
-            'S' => vec!["-f".into(), self.value.clone()],
+            'S' | 'B' => vec!["-f".into(), self.value.clone()],
             'L' => vec!["--features".into(), self.value.clone()],
             'E' => vec![format!("--features={}", self.value)],
             'J' => vec![format!("-f{}", self.value)],
@@ -509,11 +517,12 @@ impl ProcCase {
     fn observe(&self, dir: &Path) -> Option<String> {
         std::fs::write(dir.join("f.asm"), &self.src).unwrap();
         let _ = std::fs::remove_file(dir.join("out.lc3"));
-        let mut args: Vec<String> = match self.cmd {
-            "check" => vec!["check".into(), "f.asm".into()],
-            "compile" => vec!["compile".into(), "f.asm".into(), "out.lc3".into()],
-            _ => vec!["run".into(), "f.asm".into(), "--minimal".into()],
-        };
+        let mut args: Vec<String> = self.global_args();
+        args.extend(match self.cmd {
+            "check" => vec!["check".to_string(), "f.asm".into()],
+            "compile" => vec!["compile".to_string(), "f.asm".into(), "out.lc3".into()],
+            _ => vec!["run".to_string(), "f.asm".into(), "--minimal".into()],
+        });
         args.extend(self.flag_args());
         let argv: Vec<&str> = args.iter().map(|s| s.as_str()).collect();
         let o = spawn(dir, &argv, &self.inp, 10_000);
@@ -575,6 +584,12 @@ const P_FLAGS: &[(char, &str)] = &[
     ('S', " stack"),
     ('S', "stack,stack,foo"),
     ('S', "foo,stack,stack"),
+    // before the subcommand (`lace -f stack run f.asm`), and both before and after it
+    ('G', "stack"),
+    ('B', "stack"),
+    ('G', ""),
+    ('G', "foo"),
+    ('G', "stack,stack"),
 ];
 
 const P_CMDS: &[&str] = &["compile", "run", "check"];
@@ -594,6 +609,12 @@ fn proc_cases(o: &crate::Opts) -> Vec<(&'static str, ProcCase)> {
             for cmd in P_CMDS {
                 v.push(("sources", mk(cmd, f, src)));
             }
+        }
+    }
+    // the option BEFORE the subcommand used to be parsed and then dropped: every source again
+    for src in P_SOURCES {
+        for cmd in P_CMDS {
+            v.push(("option-before-subcommand", mk(cmd, &('G', "stack"), src)));
         }
     }
     // every way of writing the option x every command, on a program without and one with the mnemonics
@@ -758,7 +779,7 @@ pub fn run(o: &crate::Opts) {
                     samples.push(format!(
                         "{{\"command\":\"lace {} {}\",\"source\":\"{}\",\"observed\":\"{}\"}}",
                         c.cmd,
-                        json_escape(&c.flag_args().join(" ")),
+                        json_escape(&format!("{} {}", c.global_args().join(" "), c.flag_args().join(" "))),
                         json_escape(&c.src.chars().take(60).collect::<String>()),
                         json_escape(&obs.chars().take(40).collect::<String>())
                     ));
